@@ -4420,6 +4420,18 @@ class ParseCtx:
                     raise DuplicateDefinitionError("code", i, val)
                 target.append(val)
 
+        # All enumerators of the generated header share one namespace (<PARSER>_<OUTPUT>_<value>, <PARSER>_OK, <PARSER>_FINISH_<code>, ...)
+        enumerators = {"OK": None, "FAIL": None, "DONE": None}
+        enumerators.update({f"FINISH_{x}": None for x in self.finish_codes})
+        enumerators.update({f"YIELD_{x}": None for x in self.yield_codes})
+        for out in self._parse_tree.find_data("out_decl"):
+            out_obj = self.state_object_spec[out.children[1].value]
+            if out_obj.holds_a(OutputStorageType.ENUM):
+                for val in out_obj.enum_values:
+                    if f"{out_obj.name.upper()}_{val}" in enumerators:
+                        raise DuplicateDefinitionError("enum header name", out, f"{out_obj.name.upper()}_{val}")
+                    enumerators[f"{out_obj.name.upper()}_{val}"] = out_obj
+
         # Parse main
         parser_decl = next(self._parse_tree.find_data("parser_decl"))
         try:
